@@ -286,9 +286,18 @@ def run(ctx):
                 construct='CleanNode:non-restat')
         guarded(ctx, 'C02.CC4', fc, e, lambda a: mentions_field(a, 'BuildConfig::dry_run'), False,
                 'no pruning in a dry run', construct='CleanNode:dry-run')
-    resets = [e for e in fc.events('asg') if is_var('record_mtime')(e['l']) and
-              mentions_field(e.get('r'), 'Edge::command_start_time_')]
-    ok = any(fact_holds(fc.facts_at(e), is_var('node_cleaned'), True) for e in resets)
+    # (a store `rec = cleaned ? start : newest` is the reset on its `cleaned` arm)
+    from model import store_arms
+    from props.scan_common import is_rec_var
+    ok = False
+    for e in fc.events('asg'):
+        if not is_rec_var(fc)(e['l']):
+            continue
+        for val, extra in store_arms(fc, e):
+            if mentions_field(val, 'Edge::command_start_time_'):
+                facts = dict(fc.facts_at(e))
+                facts.update(extra)
+                ok = ok or fact_holds(facts, is_var('node_cleaned'), True)
     ctx.check('C02.CC4', ok, fc.name, 'record_mtime:no-reset-after-prune', fc.loc,
               'after a prune the recorded mtime is reset to the command start time')
     check_prune_recheck(ctx, 'C02.CC4', prog)
